@@ -49,6 +49,7 @@ type c01Cfg struct {
 	proxyK       int
 	openFileImpl bool
 	noSizes      bool // the store reports size 0 for every file
+	staleSizes   bool // the store reports three fifths of every file's size (files that grew after their size was taken)
 	eagerEOF     bool // the store's readers report io.EOF together with the last bytes (io.ReaderAt allows both forms)
 }
 
@@ -59,6 +60,9 @@ func (c c01Cfg) String() string {
 	}
 	if c.eagerEOF {
 		s += "/eager-EOF"
+	}
+	if c.staleSizes {
+		s += "/stale-sizes"
 	}
 	return s
 }
@@ -130,6 +134,7 @@ func c01Connect(u *vfUnit, cfg c01Cfg) (*c01Env, error) {
 		// every third store-backed unit: a backend that does not report sizes (Stat/Fstat say 0): what is read must still be the content
 		e.store.ReportSizeZero = cfg.noSizes
 		e.store.EagerEOF = cfg.eagerEOF
+		e.store.ReportSizeStale = cfg.staleSizes
 		sc.H = e.store.Handlers(vfHandlerOpt{OpenFile: cfg.openFileImpl, CmdAll: true, ListAll: true})
 	case 2:
 		sc.Kind = vfRS
@@ -298,17 +303,21 @@ func c01Run(u *vfUnit) {
 	Ps := []int{1, 2, 3, 7, 64, 1000, 32768, 65536, 131072}
 	Cs := []int{1, 2, 3, 64}
 	i := u.Index
+	// (the packet size cycles with period 9; the backend is shifted by one from one block of nine units to the
+	// next, so that every backend meets every packet size)
+	backend := ((i%9)/3 + i/9) % 3
 	cfg := c01Cfg{
 		P:            Ps[i%len(Ps)],
 		C:            Cs[(i/len(Ps)+i)%len(Cs)],
-		backend:      (i / 3) % 3,
+		backend:      backend,
 		alloc:        (i/2)%2 == 1,
 		cr:           (i/5)%2 == 0,
 		cw:           (i/7)%2 == 0,
 		fst:          (i/11)%2 == 0,
 		openFileImpl: (i/13)%2 == 0,
-		noSizes:      (i/3)%3 == 1 && (i/9)%3 == 1,
-		eagerEOF:     (i/3)%3 == 1 && i%2 == 0,
+		noSizes:      backend == 1 && (i/9)%3 == 1,
+		eagerEOF:     backend == 1 && i%2 == 0,
+		staleSizes:   backend == 1 && (i/9)%3 == 2,
 	}
 	if i%10 < 7 {
 		cfg.proxyK = 2 + r.Intn(15)
